@@ -7,22 +7,23 @@
 (* (strings); NamesTab gives the bytes behind a key, so that byte order,   *)
 (* prefix, suffix and substring relations are decided on bytes.  The key   *)
 (* of a path is the keys of its components joined by "/".                  *)
-(* Object ids are opaque.  ObjTab maps an object token to the decoded      *)
-(* object; a state's objs maps ids to tokens.  ContentTab maps a content   *)
-(* token to [len, blobid]: blobid is the value of the (uninterpreted) hash *)
-(* function for that content as a blob.                                    *)
+(* Object ids are opaque.  ObjOfTok maps an object token to the decoded    *)
+(* object; a state's objs maps ids to tokens.  BlobIdFn maps a content     *)
+(* token to the value of the (uninterpreted) hash function for that        *)
+(* content as a blob.  BytesOf gives the bytes behind a key.               *)
 (***************************************************************************)
 EXTENDS Integers, Sequences, FiniteSets, TLC
 
-CONSTANTS NamesTab, ContentTab, ObjTab
+CONSTANTS BytesOf(_),      \* the bytes behind a key (a sequence of 0..255)
+          BlobIdFn(_),     \* content token -> the id of that content as a blob (uninterpreted hash)
+          ObjOfTok(_)      \* object token -> decoded object
 
 Range(f) == {f[x] : x \in DOMAIN f}
 SeqToSet(s) == {s[i] : i \in 1..Len(s)}
 MinOf(S) == CHOOSE x \in S : \A y \in S : x <= y
 Hex40Zero == "0000000000000000000000000000000000000000"
 
-Bytes(k) == NamesTab[k]
-HasName(k) == k \in DOMAIN NamesTab
+Bytes(k) == BytesOf(k)
 
 (* lexicographic byte order *)
 LtB(a, b) ==
@@ -73,13 +74,13 @@ IdxCanonical(idx) ==
 (* Objects *)
 
 HasObj(st, id) == id \in DOMAIN st.objs
-Obj(st, id) == ObjTab[st.objs[id]]
+Obj(st, id) == ObjOfTok(st.objs[id])
 KindOf(st, id) == IF HasObj(st, id) THEN Obj(st, id).k ELSE "none"
 IsCommit(st, id) == HasObj(st, id) /\ Obj(st, id).k = "commit" /\ Obj(st, id).ok
 IsTree(st, id) == HasObj(st, id) /\ Obj(st, id).k = "tree" /\ Obj(st, id).ok
 IsBlob(st, id) == HasObj(st, id) /\ Obj(st, id).k = "blob"
 BadObjs(st) == {id \in DOMAIN st.objs : Obj(st, id).k = "bad"}
-BlobIdOf(c) == ContentTab[c].blobid
+BlobIdOf(c) == BlobIdFn(c)
 
 (* Flatten a stored tree into <<path key, id>> pairs through the independently decoded trees. *)
 (* A missing or non-tree object yields a marker pair that can never equal a staged pair.        *)
@@ -109,8 +110,6 @@ TreesOf(st, tid) ==
 ----------------------------------------------------------------------------
 (* Refs and HEAD *)
 
-IsHex40(s) == s \in DOMAIN NamesTab /\ Len(NamesTab[s]) = 40
-             /\ \A i \in 1..40 : (NamesTab[s][i] \in 48..57 \/ NamesTab[s][i] \in 97..102)
 Branches(st) == DOMAIN st.refs
 RefRaw(st, b) == st.refs[b]
 (* a branch value is usable iff it names a commit in the store; raw strings are compared as ids *)
